@@ -214,6 +214,105 @@ def h_step(x, op, lazy=True, na=2, flush_first=False):
         be.close()
 
 
+HIST_OPS = ["insert_one", "replace_last", "delete_a0", "read", "update_bucket"]
+
+
+def state_eq(a, b):
+    """two (rows per bucket, bucket names) snapshots describe the same database content"""
+    (ra, ma), (rb, mb) = a, b
+    if ma != mb or set(ra) != set(rb):
+        return False
+    conds = []
+    for k in ra:
+        c = ST.same_rows_as_sets(ra[k], rb[k])
+        if c is False:
+            return False
+        conds.append(c)
+    return And(conds)
+
+
+def h_history(x, L, which="C06"):
+    """L operations with arbitrary gaps between them on the lazily-committing store; a crash after each:
+    the reopened file equals the working state at an earlier operation boundary (a prefix, no operation
+    split), reads and bucket operations are durable on return, and an event write issued more than ~10 s
+    after the most recent flush is durable on return"""
+    A = ST.sym_rows(x, "a", 1)
+    B = ST.sym_rows(x, "b", 1)
+    ST.distinct(x, [r.id for r in A + B])
+    be = ST.backend("sqlite")
+    n0 = x.zint("n0", 0, LIMIT)
+    c = x.zint("c_ms", 0, ST.T_MAX_MS)
+    loff = x.zint("local_utc_offset_min", -840, 840)
+    clock = ST.Clock(fixed=[x.dt_us(c * 1000)])
+    prev_dt = SQ.__dict__.get("datetime")
+    SQ.__dict__["datetime"] = S.SymDatetimeClass(clock, loff)
+    try:
+        ds = be.make(x, {"A": A, "B": B}, lazy=True)
+        st = ds.storage_strategy
+        st.num_uncommitted_statements = S.SInt(n0) if x.sym else n0
+        st.last_commit = S.SymDatetimeClass(ST.Clock(fixed=[x.dt_us(c * 1000)]), loff).now()
+        flushed_in = []
+        orig_commit = st.commit
+        cur = [None]
+
+        def counting_commit():
+            flushed_in.append(cur[0])
+            return orig_commit()
+
+        st.commit = counting_commit
+        b = ds["A"]
+
+        def snap(committed):
+            rows = be.table_rows(ds, committed=committed)
+            meta = be.table_meta(ds, committed=committed)
+            return rows, sorted((k, str(m["name"])) for k, m in meta.items())
+
+        snaps = [snap(False)]
+        obl = []
+        trace = []
+        now = c * 1000
+        last_flush = c * 1000
+        for i in range(L):
+            op = HIST_OPS[x.choice("op%d" % i, len(HIST_OPS))]
+            gap = x.zint("gap%d_us" % i, 0, 40 * 86400 * 10**6)
+            now = now + gap
+            clock.fixed = [x.dt_us(now)]
+            clock.n = 0
+            cur[0] = i
+            new = ST.sym_rows(x, "n%d" % i, 1, ids=False)[0]
+            if op == "insert_one":
+                b.insert(ST.event_of_row(x, new))
+            elif op == "replace_last":
+                if len(snaps[-1][0]["A"]) == 0:  # nothing to replace
+                    x.assume(False)
+                b.replace_last(ST.event_of_row(x, new))
+            elif op == "delete_a0":
+                b.delete(x.wrap(A[0].id))
+            elif op == "read":
+                b.get(-1)
+            elif op == "update_bucket":
+                ds.update_bucket("B", name="renamed-%d" % i)
+            trace.append(op)
+            S_i = snap(False)
+            C_i = snap(True)
+            snaps.append(S_i)
+            durable = state_eq(C_i, S_i)
+            if which == "C06":
+                obl.append(("crash-image-is-the-state-at-an-operation-boundary-step%d" % i, Or([state_eq(C_i, s_) for s_ in snaps])))
+                if op in ("read", "update_bucket"):
+                    obl.append(("%s-durable-on-return-step%d" % ("read-flushes" if op == "read" else "bucket-operation", i), durable))
+            else:
+                if op in ("insert_one", "replace_last", "delete_a0"):
+                    obl.append(("event-write-more-than-10s-after-last-flush-is-durable-step%d" % i, Implies(now - last_flush > (AGE_S + 1) * 10**6, durable)))
+            if i in flushed_in:
+                last_flush = now
+        return obl, trace
+    finally:
+        if prev_dt is not None:
+            SQ.__dict__["datetime"] = prev_dt
+        be.close()
+
+
 def h_peewee(x, op):
     """auto-committing store: every completed operation is durable, no transaction is ever opened"""
     A = ST.sym_rows(x, "a", 2)
@@ -302,6 +401,8 @@ def harnesses(tier, prop=PROP, fn=None):
             hs.append((Harness(prop, "sqlite-lazy-after-own-flush-%s" % op, fn, dict(op=op, lazy=True, flush_first=True), "sqlite (lazy commit): a read flushes (the code records the time itself), then %s delta later" % op, split_depth=6), 1800))
     for op in ops:
         hs.append((Harness(prop, "sqlite-lazy-%s" % op, fn, dict(op=op, lazy=True), "sqlite (lazy commit): %s from an arbitrary commit-machinery state (counter, buffered writes, age of last flush symbolic)" % op, split_depth=6), 1800))
+    for L in ([2] if tier == "quick" else [2, 3, 4]):
+        hs.append((Harness(prop, "sqlite-lazy-history-L%d" % L, h_history, dict(L=L, which=prop), "sqlite (lazy commit): every history of %d operations out of %s with arbitrary gaps (0..40 days) between them, crash after each" % (L, HIST_OPS), split_depth=8), 3600))
     if prop == "C06":
         ST.install_peewee()
         for op in ["insert_one", "insert_many_new", "insert_many_upsert", "replace", "replace_last", "delete_live", "create_bucket", "update_bucket", "delete_bucket", "write_after_rejected_bulk_insert"]:
@@ -317,6 +418,7 @@ def meta(chk, tier):
     chk.bounds = [
         "single step from an arbitrary state: num_uncommitted_statements n0 in [0,50], buffered elementary writes w0 <= n0, last flush at any instant, clock readings any non-decreasing instants up to 1000 s later",
         "two buckets with 2+1 events; every operation kind; lazy and eager commit modes",
+        "histories of 2 (thorough: up to 4) operations (insert, replace_last, delete, read, bucket update) with symbolic gaps of 0..40 days, counter start symbolic in [0,50], crash after every operation",
     ]
     chk.stubs = ["sqlite3 -> symex.sqlstub: committed snapshot vs working copy; commit() copies working -> committed; a crash discards the working copy",
                  "sqlite.datetime.now() -> symbolic clock (arbitrary non-decreasing instants)"]
